@@ -31,6 +31,8 @@ impl Payload {
 #[derive(Clone, Copy, Debug, PartialEq, Eq)]
 pub enum HOp {
     Set(u64),
+    /// the same call made from a destructor that runs while the thread unwinds from a panic
+    SetUnwinding(u64),
     Get,
     IsSet,
 }
@@ -70,6 +72,10 @@ pub fn parse_prog(s: &str) -> Vec<Vec<HOp>> {
                         ops.push(HOp::Set((b[i + 1] - b'0') as u64));
                         i += 2;
                     }
+                    b'U' => {
+                        ops.push(HOp::SetUnwinding((b[i + 1] - b'0') as u64));
+                        i += 2;
+                    }
                     b'G' => {
                         ops.push(HOp::Get);
                         i += 1;
@@ -93,10 +99,28 @@ fn do_op(h: &SingletonHolder<Payload>, seq: &AtomicUsize, log: &Mutex<Vec<Rec>>,
             h.set(Payload::new(v));
             Seen::SetReturned
         }
+        HOp::SetUnwinding(v) => {
+            struct OnDrop<'a>(&'a SingletonHolder<Payload>, u64);
+            impl Drop for OnDrop<'_> {
+                fn drop(&mut self) {
+                    self.0.set(Payload::new(self.1));
+                }
+            }
+            let _ = std::panic::catch_unwind(std::panic::AssertUnwindSafe(|| {
+                let _g = OnDrop(h, v);
+                std::panic::panic_any(rt::ScriptedPanic("a panic during which a destructor sets the holder".into()));
+            }));
+            Seen::SetReturned
+        }
         HOp::Get => Seen::Got(h.get().map(|a| (Arc::as_ptr(&a) as usize, a.id, a.intact()))),
         HOp::IsSet => Seen::IsSet(h.is_set()),
     };
     let ret = seq.fetch_add(1, Ordering::SeqCst);
+    // for the specification it is a set like any other
+    let op = match op {
+        HOp::SetUnwinding(v) => HOp::Set(v),
+        o => o,
+    };
     log.lock().unwrap().push(Rec {
         thread,
         op,
@@ -289,7 +313,7 @@ pub fn run(spec: &crate::Spec) -> Report {
 pub fn run_seq(spec: &crate::Spec) -> Report {
     let mut rep = Report::new(&spec.raw);
     let depth = spec.usize("depth", 4);
-    let alpha = ["S1", "S2", "G", "I"];
+    let alpha = ["S1", "S2", "G", "I", "U3"];
     let mut progs: Vec<String> = vec![String::new()];
     let mut frontier: Vec<String> = vec![String::new()];
     for _ in 0..depth {
